@@ -2,6 +2,7 @@ import GB.C14.Proofs
 import GB.C14.Atomic
 import GB.C14.ProofsDefault
 import GB.C06.Props
+import GB.Stack.Props   -- STACK block at the end of this file (area `stack`)
 /-
   C14 — property theorems.  `parseRPCName`, `routeGRPC`, `routeHTTPsvc` model
   routing/service_router.go (after fix D16), `setPath`/`parseTarget`/`httpName`/`webName` model what
@@ -411,3 +412,95 @@ theorem C14_http_forms_agree_with_pattern_default
     have hpool' : pool ρ.target = true := by rw [hρn]; exact hpool
     have hcanon : canonicalRPCName svc meth = M.rpcName := by rw [hrpc]; rfl
     simp [routeHTTPsvcName, hparse, hρ, hpool', hcanon, hρe, hpool]
+
+/-! ═══════════════════════════════════════════════════════════════════════════════════════════════
+    STACK composition block (area `stack`, docs/notes/STACK.md) — BEGIN.
+    The combined model `GB.Stack.run` (C16 present set ∘ aggregateWatcher fan-out ∘ C06 tables) composed with
+    the theorems of this file.  Kept separate from the C14 theorems above; do not interleave.
+    ═══════════════════════════════════════════════════════════════════════════════════════════════ -/
+section StackBlock
+open GB.Stack
+
+/-- **First claimant, end to end**: if after a ReflectionRouter history `h` target `T` owns service `S`, then after
+    ANY continuation `k` in which `T` is not removed and every changed contract its polls deliver still lists `S`,
+    `T` still owns `S` — whatever other targets are added (claiming `S` too), removed, re-added or fail to be
+    added in `k`.  From `C14_first_claimant` through the compilation of the glue (`toC06`). -/
+theorem C14_stack_first_claimant (valid : Bytes → Bool) (h k : List Stack.Op) (T : Name) (S : SvcName)
+    (hown : ∃ r, (run valid St.init h).svc.routes S = some r ∧ r.target = T)
+    (hk : ∀ op ∈ k, op ≠ Stack.Op.remove T ∧ ∀ d, op = Stack.Op.update T d → listed d.services S) :
+    ∃ r, (run valid St.init (h ++ k)).svc.routes S = some r ∧ r.target = T := by
+  obtain ⟨r, hr, ht⟩ := hown
+  have hpres : presentOf h T = true := by
+    have := ((Stack_settled_routes valid h S).1 r hr).1
+    rw [(Stack_run_eq_compile valid h).2.2, ht] at this
+    exact this
+  rw [(Stack_run_eq_compile valid (h ++ k)).2.1]
+  rw [(Stack_run_eq_compile valid h).2.1] at hr
+  have hc : toC06 (h ++ k) = toC06 h ++ toC06From (presentOf h) k := by
+    have := toC06From_append h k (fun _ => false)
+    simpa [toC06, presentOf] using this
+  rw [hc]
+  exact C14_first_claimant (toC06 h) _ T S ⟨r, hr, ht⟩ (keeps_compiled T S k _ hpres hk)
+
+/-- **What a routed gRPC-style probe means, end to end** (proxy, gRPC-Web, gRPC-WebSocket): after any router history,
+    if the call named `s` is routed, then the method string handed to the target is `"/" ++ strip s` byte for byte,
+    the target is PRESENT in the ReflectionRouter, and its LATEST contract lists the service of `s`. -/
+theorem C14_stack_probe (valid : Bytes → Bool) (h : List Stack.Op) (s : Bytes) (t : Name) (v : Ver) (i : Nat) (rpc : Bytes)
+    (hr : routeGRPC (run valid St.init h).present (run valid St.init h).svc.routes (some s) = .ok t v i rpc) :
+    rpc = slash :: strip s ∧ (run valid St.init h).present t = true ∧
+      ∃ svc m, Names s svc m ∧ Lists (specLatest h) t svc := by
+  obtain ⟨h1, svc, m, r, hn, hrt, hre⟩ := C14_method_verbatim _ _ s t v i rpc hr
+  obtain ⟨hp, hl⟩ := (Stack_settled_routes valid h svc).1 r hrt
+  subst hre
+  exact ⟨h1, hp, svc, m, hn, hl⟩
+
+/-- … and a probe is never answered `Unavailable` for lack of a pooled connection: the owner of a routed service is
+    present, and the pool holds a connection exactly for the present names (C16). -/
+theorem C14_stack_never_unavailable (valid : Bytes → Bool) (h : List Stack.Op) (s : Bytes) :
+    routeGRPC (run valid St.init h).present (run valid St.init h).svc.routes (some s) ≠ .status codeUnavailable := by
+  intro hr
+  simp only [routeGRPC] at hr
+  cases hp : parseRPCName s with
+  | none => simp [hp, codeUnimplemented, codeUnavailable] at hr
+  | some p =>
+    obtain ⟨svc, m⟩ := p
+    simp only [hp] at hr
+    cases hrt : (run valid St.init h).svc.routes svc with
+    | none => simp [hrt, codeUnimplemented, codeUnavailable] at hr
+    | some r =>
+      have := ((Stack_settled_routes valid h svc).1 r hrt).1
+      simp [hrt, this] at hr
+
+/-- `Stack_settled_routes` (GB/Stack/Props.lean), restated here so that `./check C14` audits it. -/
+theorem C14_stack_settled_routes (valid : Bytes → Bool) (h : List Stack.Op) (S : SvcName) :
+    (∀ r, (run valid St.init h).svc.routes S = some r →
+        (run valid St.init h).present r.target = true ∧ Lists (specLatest h) r.target S) ∧
+    (NeverShared S Latest.init (toC06 h) → ∀ T, Lists (specLatest h) T S →
+        ∃ r, (run valid St.init h).svc.routes S = some r ∧ r.target = T) ∧
+    ((∀ T, ¬ Lists (specLatest h) T S) → (run valid St.init h).svc.routes S = none) :=
+  Stack_settled_routes valid h S
+
+/-- `Stack_pattern_settled` (GB/Stack/Props.lean), restated here so that `./check C14` audits it. -/
+theorem C14_stack_pattern_settled (valid : Bytes → Bool) (eval : Bytes → Route → Outcome) (h : List Stack.Op)
+    (names : List Name) (m : HMethod) (path : Bytes)
+    (hnames : ∀ n, presentOf h n = true → n ∈ names)
+    (hu : Uncontested valid (eval path) (specLatest h) m) :
+    routeHTTP (presentOf h) eval (run valid St.init h).pat.static m path =
+      routeHTTP (presentOf h) eval (specTable valid (specLatest h) names) m path :=
+  Stack_pattern_settled valid eval h names m path hnames hu
+
+/-- `Stack_earliest_lister_not_owner` (GB/Stack/Props.lean), restated here so that `./check C14` audits it. -/
+theorem C14_stack_earliest_lister_not_owner :
+    (run (fun _ => true) St.init [.add exA (some exDesc), .add exB (some exDesc), .remove exA]).svc.routes exS = none ∧
+    (run (fun _ => true) St.init [.add exA (some exDesc), .add exB (some exDesc), .remove exA]).present exB = true ∧
+    (run (fun _ => true) St.init [.add exA (some exDesc), .add exB (some exDesc)]).svc.routes exS = some ⟨exA, 1, 0⟩ :=
+  Stack_earliest_lister_not_owner 
+
+/-- the first-claimant theorem applies: `a` owns `S`, then `b` is added claiming `S` as well -/
+example : ∃ r, (run (fun _ => true) St.init ([Stack.Op.add exA (some exDesc)] ++ [Stack.Op.add exB (some exDesc)])).svc.routes exS
+    = some r ∧ r.target = exA :=
+  C14_stack_first_claimant _ _ _ exA exS ⟨⟨exA, 1, 0⟩, by decide, rfl⟩
+    (by intro op hop; simp at hop; subst hop; exact ⟨by simp, by intro d h; cases h⟩)
+
+end StackBlock
+/-! STACK composition block — END -/
